@@ -142,7 +142,7 @@ impl HintState {
         let mut max_zone_height = Fixed::ZERO;
         let mut zone_ix = 0usize;
         // Copy blues and other blues to a combined array of top and bottom zones.
-        for blue in params.blues.values().iter().take(MAX_BLUES) {
+        for (blue_ix, blue) in params.blues.values().iter().take(MAX_BLUES).enumerate() {
             // FreeType loads blues as integers and then expands to 16.16
             // at initialization. We load them as 16.16 so floor them here
             // to ensure we match.
@@ -158,8 +158,11 @@ impl HintState {
             let zone = &mut zones[zone_ix];
             zone.cs_bottom_edge = bottom;
             zone.cs_top_edge = top;
-            if zone_ix == 0 {
-                // First blue value is bottom zone
+            if blue_ix == 0 {
+                // First blue value is bottom zone. Like FreeType, this is
+                // decided by the position in BlueValues: when the first
+                // pair is rejected, the following pairs are still top zones
+                // <https://gitlab.freedesktop.org/freetype/freetype/-/blob/80a507a6b8e3d2906ad2c8ba69329bd2fb2a85ef/src/psaux/psblues.c#L222>
                 zone.is_bottom = true;
                 zone.cs_flat_edge = top;
             } else {
@@ -1147,6 +1150,25 @@ mod tests {
         BlueZone, Blues, Fixed, Hint, HintMap, HintMask, HintParams, HintState, HintingSink,
         StemHint, GHOST_BOTTOM, GHOST_TOP, HINT_MASK_SIZE, LOCKED, PAIR_BOTTOM, PAIR_TOP,
     };
+
+    /// The first BlueValues pair is the bottom zone by position: when it is
+    /// rejected (negative height) the remaining pairs are still top zones.
+    #[test]
+    fn rejected_first_blue_leaves_top_zones() {
+        let params = HintParams {
+            blues: Blues::new(
+                [0.0, -15.0, 500.0, 515.0]
+                    .iter()
+                    .copied()
+                    .map(Fixed::from_f64),
+            ),
+            ..Default::default()
+        };
+        let state = HintState::new(&params, Fixed::ONE / Fixed::from_i32(64));
+        assert_eq!(state.zones().len(), 1);
+        assert!(!state.zones()[0].is_bottom);
+        assert_eq!(state.zones()[0].cs_flat_edge, Fixed::from_i32(500));
+    }
 
     fn make_hint_state() -> HintState {
         fn make_blues(values: &[f64]) -> Blues {
